@@ -25,11 +25,6 @@ Definition ex_server_history : list input :=
 Example ex_server_wf : forallb input_wf ex_server_history = true.
 Proof. vm_compute; reflexivity. Qed.
 
-Example ex_server_discipline : h2_discipline ex_server_history.
-Proof.
-  split; vm_compute; repeat (constructor; [simpl; intuition discriminate|]); constructor.
-Qed.
-
 (* the final state: closed; stream 5 (the only one still registered) terminated by the GOAWAY, its
    task cancelled and in _cancelled; credit for the late DATA on the finished stream 1;
    streams 7 and 9 never accepted *)
@@ -38,7 +33,7 @@ Example ex_server_result :
   Ok (mk_state Server true true
         (mk_hstate true [mk_trec 5 true true])
         [(5, mk_srec true (Some (RGoaway 0)) false false false false false 0 false 0)]
-        16 2 2 true false [(1, 7)]).
+        16 2 2 true false [(1, 7)] []).
 Proof. vm_compute; reflexivity. Qed.
 
 (* ---- a client connection with two calls: 1xx, response, padded/empty data, trailers, end; PUSH_PROMISE,
@@ -52,24 +47,23 @@ Definition ex_client_history : list input :=
                      ResponseReceived 2; DataReceived 2 3 3]);
     IRelease 1;
     IData (H2Events [WindowUpdated 0 100; StreamReset 1 8 true; DataReceived 1 2 2]);
-    IData H2ProtocolError;
+    IData (H2Events [RequestReceived 4; DataReceived 4 6 6; RequestReceived 6; StreamReset 6 8 true]);
+    IData H2UnicodeDecodeError;
     IData (H2Events [ResponseReceived 3]);
     IConnLost ].
 
 Example ex_client_wf : forallb input_wf ex_client_history = true.
 Proof. vm_compute; reflexivity. Qed.
 
-Example ex_client_no_request : forallb no_request_input ex_client_history = true.
-Proof. vm_compute; reflexivity. Qed.
-
-(* call 3 is still registered; it was terminated with 'Protocol error' and then, by the second
-   close(), with 'Connection lost' (the last error wins); the data of the pushed stream 2 and of
-   the released stream 1 was credited back *)
+(* call 3 is still registered; it was terminated with 'Protocol error' (undecodable header block) and
+   then, by the second close(), with 'Connection lost' (the last error wins); the data of the pushed
+   stream 2, of the released stream 1 and of the refused stream 4 was credited back; stream 4 was
+   refused with RST_STREAM, stream 6 (already reset by the peer in the same batch) without *)
 Example ex_client_result :
   run (init Client) ex_client_history =
   Ok (mk_state Client true true (mk_hstate true [])
         [(3, mk_srec true (Some RConnLost) false false false false true 0 false 0)]
-        15 1 1 true false [(2, 3); (1, 2)]).
+        21 1 2 true false [(2, 3); (1, 2); (4, 6)] [4]).
 Proof. vm_compute; reflexivity. Qed.
 
 (* ---- tolerance on a state with live calls *)
@@ -77,7 +71,7 @@ Definition ex_live_client : state :=
   mk_state Client false false (mk_hstate false [])
     [(3, mk_srec true None true false true false false 2 false 37);
      (5, mk_srec true None false false false false false 0 false 0)]
-    37 4 1 false true [].
+    37 4 1 false true [] [].
 
 Definition ex_tolerated : list event :=
   [ UnknownFrameReceived 11 0; UnknownFrameReceived 255 3; AlternativeServiceAvailable;
@@ -99,7 +93,7 @@ Example ex_unregistered :
   Ok (mk_state Client false false (mk_hstate false [])
         [(3, mk_srec true None true false true false false 2 false 37);
          (5, mk_srec true None false false false false false 0 false 0)]
-        46 5 2 false true [(1, 12)]).
+        46 5 2 false true [(1, 12)] []).
 Proof. vm_compute; reflexivity. Qed.
 
 (* ---- orderly shutdown: a protocol violation with two calls pending *)
@@ -108,7 +102,7 @@ Example ex_violation :
   Ok (mk_state Client true true (mk_hstate true [])
         [(3, mk_srec true (Some RProtocolError) true false true false false 2 false 37);
          (5, mk_srec true (Some RProtocolError) false false false false false 0 false 0)]
-        37 4 1 false false []).
+        37 4 1 false false [] []).
 Proof. vm_compute; reflexivity. Qed.
 
 Example ex_violation_shut :
@@ -125,10 +119,10 @@ Definition ex_live_server : state :=
     [(1, mk_srec true None false false false false false 1 false 8);
      (3, mk_srec true (Some (RRemoteReset 8)) false false false false false 0 false 0);
      (5, fresh_srec false)]
-    8 0 1 false false [].
+    8 0 1 false false [] [].
 
-Example ex_live_server_inv : inv_b ex_live_server = true /\ sinv_b [3] ex_live_server = true.
-Proof. split; vm_compute; reflexivity. Qed.
+Example ex_live_server_inv : inv_b ex_live_server = true.
+Proof. vm_compute; reflexivity. Qed.
 
 Example ex_server_goaway :
   run_events ex_live_server [DataReceived 1 4 4; ConnectionTerminated 2; StreamReset 3 8 true] =
@@ -137,14 +131,37 @@ Example ex_server_goaway :
         [(1, mk_srec true (Some (RGoaway 2)) false false false false false 2 false 12);
          (3, mk_srec true (Some (RGoaway 2)) false false false false false 0 false 0);
          (5, fresh_srec false)]
-        12 0 1 false false []).
+        12 0 1 false false [] []).
 Proof. vm_compute; reflexivity. Qed.
 
-(* the refutation witnesses are well-formed inputs *)
-Example ex_client_witness : run (init Client) client_witness = Raises ENotImplemented.
+(* the inputs that used to raise out of data_received on a client (D21 and its residue) now end in
+   ordinary states: the stream is refused (RST_STREAM only while it is still closable) and released *)
+Example ex_client_witness :
+  run (init Client) client_witness =
+  Ok (mk_state Client false false (mk_hstate false [])
+        [(1, fresh_srec true)] 0 0 0 true false [] [2]).
 Proof. vm_compute; reflexivity. Qed.
-Example ex_server_witness : run (init Server) server_witness = Raises EKeyError.
+Example ex_client_witness_goaway :
+  run (init Client) client_witness_goaway =
+  Ok (mk_state Client true true (mk_hstate true [])
+        [(1, mk_srec true (Some (RGoaway 0)) false false false false false 0 false 0)]
+        0 0 0 true false [] []).
 Proof. vm_compute; reflexivity. Qed.
-(* ... and the second is excluded by the discipline only because of the repeated reset *)
-Example ex_server_witness_discipline : ~ h2_discipline server_witness.
-Proof. intros [ND _]. vm_compute in ND. inversion ND as [|? ? Hn _]; subst. apply Hn. left. reflexivity. Qed.
+Example ex_client_witness_reset :
+  run (init Client) client_witness_reset =
+  Ok (mk_state Client false false (mk_hstate false [])
+        [(1, fresh_srec true)] 0 0 1 true false [] []).
+Proof. vm_compute; reflexivity. Qed.
+(* the same prefix behaves differently depending on what h2 has already seen of the batch *)
+Example ex_lookahead :
+  run_events_in [ConnectionTerminated 0] (init Client) [RequestReceived 2] <>
+  run_events_in [] (init Client) [RequestReceived 2].
+Proof. vm_compute. discriminate. Qed.
+
+(* a repeated StreamReset (was a KeyError in server.Handler.cancel) is tolerated: the second one only
+   terminates the wrapper again; the task row is unchanged (popped and cancelled once) *)
+Example ex_server_witness :
+  run (init Server) server_witness =
+  Ok (mk_state Server false false (mk_hstate false [mk_trec 1 false true])
+        [(1, fresh_srec false)] 0 0 2 false false [] []).
+Proof. vm_compute; reflexivity. Qed.
